@@ -11,6 +11,9 @@ CHECKS = {
     "C01": ("exploration", "stateful property-based testing (Hypothesis rule-based state machine, history invariant + reference model)",
             "Rule-based generation of socket histories (send batches from several tasks, link loss, connect scripts, clock advances, write pauses, runs past the 256 packet-id wrap) on a virtual-time loop and fake network; after every step the bytes at the simulated console, parsed by an independent framing, must equal the accepted messages in order, once each, at the right instant. Sampled histories, bounded depth.",
             "no write faults / expiry / overflow here (C02, C16); link loss injected at quiescent instants; " + TRUST),
+    "C02": ("fault_enumeration", "property-based fault injection (Hypothesis-generated fault scripts placed relative to message deadlines; per-message attribution of frame starts)",
+            "Socket layer: every message is submitted with a unique packet id so that each frame start on the simulated wire (complete or cut by a fault) is attributed to one submitted message; generated scripts place write faults on the 1st/2nd/3rd write of a frame, fault chains over successive connections, resets, refusals, connect latencies and clock advances at L-1/8, L, L+1/8 of the tracked message's lifetime; attempts <= 1 + retries, nothing written at or after expiry, and a single transient failure re-sends the message first on the next connection. API layer: public commands and the client's own requests on an initialised client under the same faults; toggles at most once, refresh / heartbeat / error / poll requests never repeated, idempotent commands re-sent first; expected classes from docs/design.md.",
+            "a failed write transmits nothing; stock policies are judged against the documented (retries, lifetime) table; " + TRUST),
     "C03": ("exploration", "property-based testing (Hypothesis @given, round-trip + independent reference parser)",
             "Hypothesis-generated messages of all 36 classes over their protocol domains go through the real send path and back through the real receive path; framing, declared/announced/actual lengths and CRC are judged by an independent spec-derived parser. Sampled, not exhaustive.",
             TRUST),
